@@ -2,7 +2,9 @@
 
 Domain : 1-4 fake hardware layers, 1-12 registers assigned arbitrarily to the layers (direction Read / Write / Both),
          operation lists of read_batch / write_batch (any sub-sequence of the readable / writable registers in any
-         order, no duplicate inside one batch, duplicates across batches), single read / write, arbitrary JSON values.
+         order, duplicates across batches; a read batch may name a register more than once, a write batch does not),
+         single read / write, arbitrary JSON values, and transient layer faults (the next read / write access of one
+         layer raises HardwareLayerException once).
          Layers either override the batch methods or rely on the HardwareLayerBase defaults (per-register calls).
 Oracle : differential.  World A drives the real Composite_Hardware.  World B owns an identical set of fake layers and
          performs every batch register by register on the owning layer (`layer.read(r)` / `layer.write(v, r)`).
@@ -12,7 +14,11 @@ Oracle : differential.  World A drives the real Composite_Hardware.  World B own
                               operation differs from the batch order restricted to that layer (covers relative order,
                               double or missing accesses, values attached to the wrong register)
            memory:*           per-layer register memory after the operation differs
-           exception:*        the composite raised
+           exception:*        the composite raised (other than passing on the HardwareLayerException of a layer fault)
+           fault:*            an operation during which a layer fault fired: when the composite call returns normally
+                              the caller believes the batch was done, so returned values and every layer's memory must
+                              equal world B's (which has no fault); when it passes the exception on, every register
+                              holds its old or its new value (nothing foreign), and world B is re-synchronised
 Non-trivial : at least one batch in which two layers are interleaved (the layer sequence of the batch is not grouped,
               e.g. L0 L1 L0).
 """
@@ -29,13 +35,16 @@ DESIGN_REF = "DESIGN.md §3 C25"
 TECHNIQUE = "differential testing: Composite_Hardware batches vs. per-register access on the owning fake layer"
 RULE = ("a case = number of layers (1-4), per layer whether it overrides the batch methods, 1-12 registers with owning "
         "layer, direction and initial content, and 1-8 (quick) / 1-16 (thorough) operations (read_batch / write_batch "
-        "over duplicate-free register sequences in arbitrary order, single read / write; container type list or tuple). "
+        "over register sequences in arbitrary order - read batches may repeat a register, write batches do not -, single "
+        "read / write; container type list or tuple; transient layer faults). "
         "Non-trivial = some batch interleaves >= 2 layers (its layer sequence is not grouped). "
         "Distinct = distinct case structure.")
 ASSUMPTIONS = [
-    "no register occurs twice inside one batch (the engine never does that; the statement is silent about it)",
+    "no register occurs twice inside one WRITE batch (the engine never does that; which of two values for one register "
+    "wins is not stated). Read batches with a repeated register are in the domain: position for position is stated",
     "batches are passed as list or tuple (what callers pass); one-shot iterators are out of the domain",
-    "fake layers never raise; connect/disconnect/validate forwarding is not part of the statement",
+    "fake layers raise only the injected transient HardwareLayerException, before touching any register of the call; "
+    "connect/disconnect/validate forwarding is not part of the statement",
     "how many batch calls a layer receives per composite batch is not judged, only the register access sequence",
 ]
 TIERS = {
@@ -85,8 +94,10 @@ def valid_case(case) -> bool:
         elif k == "write":
             ok = len(a) == 2 and idx_ok(a[0], "w") and _is_json_value(a[1])
         elif k == "read_batch":
-            ok = (len(a) == 2 and a[1] in ("list", "tuple") and isinstance(a[0], list) and all(idx_ok(i, "r") for i in a[0])
-                  and len(set(a[0])) == len(a[0]))
+            ok = len(a) == 2 and a[1] in ("list", "tuple") and isinstance(a[0], list) and all(idx_ok(i, "r") for i in a[0])
+        elif k == "fault":
+            ok = (len(a) == 2 and isinstance(a[0], int) and not isinstance(a[0], bool) and 0 <= a[0] < len(layers)
+                  and a[1] in ("r", "w"))
         elif k == "write_batch":
             ok = (len(a) == 2 and a[1] in ("list", "tuple") and isinstance(a[0], list)
                   and all(isinstance(p, list) and len(p) == 2 and idx_ok(p[0], "w") and _is_json_value(p[1]) for p in a[0])
@@ -99,7 +110,7 @@ def valid_case(case) -> bool:
 
 
 def _build_world(case):
-    from openpectus.engine.hardware import HardwareLayerBase, Register, RegisterDirection
+    from openpectus.engine.hardware import HardwareLayerBase, HardwareLayerException, Register, RegisterDirection
 
     class Layer(HardwareLayerBase):
         def __init__(self, ident: int):
@@ -107,12 +118,22 @@ def _build_world(case):
             self.ident = ident
             self.mem: dict = {}
             self.log: list = []
+            self.fail = {"r": False, "w": False}    # armed transient faults
+            self.fired = 0
+
+        def _fault(self, kind):
+            if self.fail[kind]:
+                self.fail[kind] = False
+                self.fired += 1
+                raise HardwareLayerException("injected transient %s fault on layer %d" % (kind, self.ident))
 
         def read(self, r):
+            self._fault("r")
             self.log.append(("r", r.name))
             return self.mem[r.name]
 
         def write(self, value, r):
+            self._fault("w")
             self.log.append(("w", r.name, value))
             self.mem[r.name] = value
 
@@ -121,6 +142,7 @@ def _build_world(case):
 
     class BatchLayer(Layer):
         def read_batch(self, registers):
+            self._fault("r")
             out = []
             for r in registers:
                 self.log.append(("r", r.name))
@@ -128,6 +150,7 @@ def _build_world(case):
             return out
 
         def write_batch(self, values, registers):
+            self._fault("w")
             for v, r in zip(values, registers, strict=True):
                 self.log.append(("w", r.name, v))
                 self.mem[r.name] = v
@@ -173,10 +196,16 @@ def analyse(case):
         comp._registers[r.name] = r
     owner = [r[0] for r in case["regs"]]
     nontrivial = False
+    from openpectus.engine.hardware import HardwareLayerException
     for n, op in enumerate(case["ops"]):
         k = op[0]
+        if k == "fault":
+            la[op[1]].fail[op[2]] = True
+            continue
         for l in la + lb:
             del l.log[:]
+        fired0 = sum(l.fired for l in la)
+        mem0 = [dict(l.mem) for l in la]
         exc = None
         got = want = None
         if k in ("read", "read_batch"):
@@ -191,6 +220,8 @@ def analyse(case):
             if _interleaved(lseq):
                 nontrivial = True
                 labels.add("interleaved-" + k)
+            if len(set(idxs)) < len(idxs):
+                labels.add("repeated-register-in-" + k)
         # ---- world B ---------------------------------------------------------------------------------
         if k == "read":
             want = lb[owner[op[1]]].read(rb[op[1]])
@@ -215,6 +246,36 @@ def analyse(case):
         except Exception as e:  # raised by the code under test: judged, not swallowed
             exc = e
         where = "op #%d %s %s (layers %s)" % (n, k, ["R%d" % i for i in idxs], lseq)
+        if sum(l.fired for l in la) > fired0:
+            # ---- a transient layer fault fired during this operation ------------------------------------
+            if isinstance(exc, HardwareLayerException):
+                labels.add("fault:passed-on:" + k)
+                foreign = [(a.ident, name, a.mem[name]) for a, b, m0 in zip(la, lb, mem0) for name in a.mem
+                           if not _eq(a.mem[name], m0[name]) and not _eq(a.mem[name], b.mem[name])]
+                if foreign:
+                    V("fault:foreign-value:" + k, "%s passed the layer fault on, but (layer, register, value) %r is neither "
+                      "the old nor the requested value" % (where, foreign[:4]))
+                    break
+                for a, b in zip(la, lb):      # the caller knows the operation failed: continue from what is there
+                    b.mem = dict(a.mem)
+                continue
+            if exc is not None:
+                V("exception:%s:%s" % (k, type(exc).__name__), "%s raised %s: %s" % (where, type(exc).__name__, exc))
+                break
+            labels.add("fault:masked:" + k)
+            if k in ("read", "read_batch"):
+                w = want if k == "read_batch" else [want]
+                g = got if k == "read_batch" else [got]
+                if not isinstance(g, list) or len(g) != len(w) or any(not _eq(x, y) for x, y in zip(g, w)):
+                    V("fault:masked:read-values", "%s returned normally although a layer fault fired: %r, per-register reads "
+                      "give %r" % (where, got, want))
+                    break
+            bad = [(a.ident, a.mem, b.mem) for a, b in zip(la, lb) if not _eq(a.mem, b.mem)]
+            if bad:
+                V("fault:masked:memory:" + k, "%s returned normally although a layer fault fired (the caller believes the "
+                  "operation was done): layer %d memory %r, register-by-register gives %r" % ((where,) + bad[0]))
+                break
+            continue
         if exc is not None:
             V("exception:%s:%s" % (k, type(exc).__name__), "%s raised %s: %s" % (where, type(exc).__name__, exc))
             break
@@ -290,9 +351,12 @@ def cases(draw, max_ops: int):
     readable = [i for i, r in enumerate(regs) if "r" in r[1]]
     writable = [i for i, r in enumerate(regs) if "w" in r[1]]
     kinds = (["read_batch"] * 4 + ["read"] if readable else []) + (["write_batch"] * 4 + ["write"] if writable else [])
+    kinds = kinds + ["fault"]
     ops = []
     for k in draw(st.lists(st.sampled_from(kinds), min_size=1, max_size=max_ops)):
-        if k == "read":
+        if k == "fault":
+            ops.append(["fault", draw(st.integers(0, nl - 1)), draw(st.sampled_from(["w", "w", "r"]) if writable else st.just("r"))])
+        elif k == "read":
             ops.append(["read", draw(st.sampled_from(readable))])
         elif k == "write":
             ops.append(["write", draw(st.sampled_from(writable)), draw(values)])
@@ -301,6 +365,10 @@ def cases(draw, max_ops: int):
             # mostly long batches: a permutation cut at a length biased towards the full register set
             n = min(len(pool), draw(st.sampled_from([0, 1, 2, 3, 5, 8, 12, 12, 12])))
             idxs = list(draw(st.permutations(pool)))[:n]
+            if k == "read_batch" and idxs and draw(st.integers(0, 3)) == 0:
+                # a register named more than once in one read batch: position for position still applies
+                for _ in range(draw(st.integers(1, 3))):
+                    idxs.insert(draw(st.integers(0, len(idxs))), draw(st.sampled_from(idxs)))
             cont = draw(st.sampled_from(["list", "list", "tuple"]))
             if k == "read_batch":
                 ops.append(["read_batch", idxs, cont])
